@@ -6,6 +6,9 @@ import sys, os, glob, subprocess, tempfile, shutil, json
 from concurrent.futures import ThreadPoolExecutor
 src = sys.argv[1]
 props = sys.argv[2:] or [json.loads(l)["id"] for l in open("/verif/properties.jsonl")]
+only = os.environ.get("HARMLESS_ONLY")
+SRC = os.environ.get("HARMLESS_REPO", "/repo")
+VERIF = os.environ.get("HARMLESS_VERIF", "/verif")
 env = dict(os.environ, GOFLAGS="-mod=mod", GOPROXY="off", GOSUMDB="off", GOTOOLCHAIN="local")
 def one(pd):
     k = os.path.basename(os.path.dirname(pd))
@@ -13,15 +16,15 @@ def one(pd):
     out = tempfile.mkdtemp(prefix="pikeharmout.")
     res = []
     try:
-        subprocess.run(f"rsync -a --exclude .git --exclude web --exclude docs /repo/ {scratch}/", shell=True, check=True)
+        subprocess.run(f"rsync -a --exclude .git --exclude web --exclude docs {SRC}/ {scratch}/", shell=True, check=True)
         p = subprocess.run(f"patch -p1 -s < {pd}", shell=True, cwd=scratch, capture_output=True, text=True)
         if p.returncode != 0:
             return k, ["patch does not apply: " + p.stdout[-200:]]
         if subprocess.run("go build ./...", shell=True, cwd=scratch, env=env, capture_output=True).returncode != 0:
             return k, ["does not compile"]
         for pr in props:
-            e2 = dict(env, PIKEVC_REPO=scratch, PIKEVC_OUT=out, PIKEVC_VERIF="/verif")
-            r = subprocess.run(["/verif/bin/check", pr, "quick"], env=e2, capture_output=True, text=True, timeout=1800)
+            e2 = dict(env, PIKEVC_REPO=scratch, PIKEVC_OUT=out, PIKEVC_VERIF=VERIF)
+            r = subprocess.run([VERIF + "/bin/check", pr, "quick"], env=e2, capture_output=True, text=True, timeout=1800)
             for l in r.stdout.splitlines():
                 if l.startswith(("VIOLATION", "CHECK-ERROR")):
                     res.append(l.replace(scratch + "/", "")[:330])
@@ -31,6 +34,8 @@ def one(pd):
     finally:
         shutil.rmtree(scratch, ignore_errors=True); shutil.rmtree(out, ignore_errors=True)
 patches = sorted(glob.glob(os.path.join(src, "*", "patch.diff")), key=lambda p: int(os.path.basename(os.path.dirname(p))))
+if only:
+    patches = [p for p in patches if os.path.basename(os.path.dirname(p)) in only.split(",")]
 bad = 0
 with ThreadPoolExecutor(max_workers=2) as ex:
     for k, res in ex.map(one, patches):
